@@ -67,7 +67,7 @@ def setup_slot(k):
 
 def phase2(job, v, r):
     src = os.path.join(job["wt"], job["sub"], "patch.diff")
-    run("git checkout -q -- .", r)
+    run("git checkout -q -- . && git clean -fdq src tests", r)
     rc, out = run("git apply %s" % src, r)
     res = {}
     outtxt = []
@@ -88,7 +88,7 @@ def phase2(job, v, r):
             if not caught:
                 outtxt.append("    rc=%d last: %s" % (p.returncode, o.strip().split("\n")[-1][:300]))
     finally:
-        run("git checkout -q -- .", r)
+        run("git checkout -q -- . && git clean -fdq src tests", r)
     job["p2"] = (res, "\n".join(outtxt))
 
 
